@@ -132,6 +132,7 @@ class Recorder:
         d['which'] = self.which_cmd(proc)
         toks = reftok.tokenize(proc.content)
         d['dig'] = self.dig(toks)
+        d['sq'] = reftok.digest((''.join(''.join(toks).split()), ))
         d['ntok'] = len(toks)
         d['missing'] = missing
         d['cls'] = proc.outcome.cls
